@@ -498,6 +498,18 @@ Example live_ex :
   end.
 Proof. vm_compute. repeat split. Qed.
 
+(* lost responses of the manifest exchanges: the PUT of dB takes effect but the push sees an error
+   (live, unlisted, tainted); the delete's manifest DELETE takes effect (LDel) *)
+Example live_lost_ex :
+  match lrun false (linit (Some [dA]) [] [1])
+    [LPutLost dB; LIdx (EGet 1 (Remove dA)); LIdx (EAssign 1); LIdx (ERecvMain 1); LIdx (EPrepare 1 false);
+     LIdx (ECommit 1); LIdx (EDel 1 false); LIdx (EComplete 1); LIdx (EDone 1); LDel 1]%nat with
+  | Some m => l_inflight m = [] /\ l_taint m = [2] /\ l_live m = [2] /\ reg (l_s m) = None /\
+              consistent m 1 /\ ~ consistent m 2
+  | None => False
+  end.
+Proof. vm_compute. repeat split; try discriminate. Qed.
+
 (* channel level, error path with a late receiver: caller 1 receives its status after the main
    caller 0 has swapped and caller 2 has become the main caller of the next batch *)
 Example fine_ex :
